@@ -10,6 +10,11 @@ CHECKS = {
     note='Trusted: rustc MIR dump, vf.engine translation, z3. The invariant is proved, not assumed. Server-side reaction to a refused id (async loop) is outside.',
     technique='MIR symbolic execution to z3 (induction with ghost witness + bounded model checking)', design='DESIGN.md section 2, C11'),
 }
+CHECKS['C07'] = dict(
+    text='Panic-freedom of every network-facing decoder (SOCKS5 address/handshake/UDP, Trojan server+client, Shadowsocks TCP/UDP legacy and 2022 with and without identity headers, VMess server Init, body codec in all size-parser/padding modes, client response header, read_address_port), each executed symbolically from a symbolic state of every state class on an arbitrary byte string of arbitrary length, with havoc contracts for the cryptographic opens (so authenticated-but-malformed content is covered): every bytes/slice/Option API precondition, MIR assert and reachable panic call is an obligation discharged by z3. Counterexamples are replayed natively (real wire re-sealed or scripted AEAD/clock hooks) before being reported.',
+    note='Trusted: rustc MIR dump, vf.engine, contract models of bytes/std/crypto APIs, z3. Chunk loops closed by induction from an arbitrary loop-head state; SOCKS5 method list bounded to 8. Transport stacks, allocation failure and the async shells are outside.',
+    technique='MIR symbolic execution to z3 (panic-freedom obligations over symbolic-length buffers, havoc crypto contracts)', design='DESIGN.md section 2, C07')
+
 NOT_APPLICABLE = {
  'C08': 'property is about long-lived async accept/select! loops under injected socket/TLS/DNS faults; no synchronous core that symbolic execution of MIR or Kani can reach (tokio runtime, epoll, FFI)',
  'C09': 'quantifies over thread interleavings of shared state; Kani has no thread model and Engine M is sequential',
